@@ -25,6 +25,7 @@ type Program struct {
 	notes   []string
 	typesPkgs map[string]*types.Package
 	typeTags  map[string]int
+	fnIDs     map[string]int
 }
 
 type Obligation struct {
@@ -922,4 +923,70 @@ func (u *Unit) checkCallFrame(st *State, items []frameItem, all bool, pos token.
 			u.addObl(st, "frame", fmt.Sprintf("call to %s modifies %s, allowed by %s", callee, it.Src, fs.why), pos, Or(alts...))
 		}
 	}
+}
+
+// fnID: a stable small integer per static function (identity of function values).
+func (p *Program) fnID(fn *ssa.Function) int {
+	if p.fnIDs == nil {
+		p.fnIDs = map[string]int{}
+	}
+	k := funcKey(fn)
+	if id, ok := p.fnIDs[k]; ok {
+		return id
+	}
+	id := len(p.fnIDs) + 1
+	p.fnIDs[k] = id
+	return id
+}
+
+// callersOf: the functions of from's package (anonymous ones included) whose body
+// directly calls a function or method called name.
+func (p *Program) callersOf(from *ssa.Function, name string) []*ssa.Function {
+	if from == nil || from.Pkg == nil {
+		return nil
+	}
+	var out []*ssa.Function
+	var visit func(f *ssa.Function)
+	seen := map[*ssa.Function]bool{}
+	visit = func(f *ssa.Function) {
+		if f == nil || seen[f] {
+			return
+		}
+		seen[f] = true
+		calls := false
+		for _, b := range f.Blocks {
+			for _, in := range b.Instrs {
+				if ci, ok := in.(ssa.CallInstruction); ok {
+					c := ci.Common()
+					if c.IsInvoke() {
+						if c.Method.Name() == name {
+							calls = true
+						}
+					} else if callee := c.StaticCallee(); callee != nil && callee.Name() == name {
+						calls = true
+					}
+				}
+			}
+		}
+		if calls {
+			out = append(out, f)
+		}
+		for _, a := range f.AnonFuncs {
+			visit(a)
+		}
+	}
+	for _, m := range from.Pkg.Members {
+		if f, ok := m.(*ssa.Function); ok {
+			visit(f)
+		}
+		if t, ok := m.(*ssa.Type); ok {
+			for _, recv := range []types.Type{t.Type(), types.NewPointer(t.Type())} {
+				ms := p.ssaProg.MethodSets.MethodSet(recv)
+				for i := 0; i < ms.Len(); i++ {
+					visit(p.ssaProg.MethodValue(ms.At(i)))
+				}
+			}
+		}
+	}
+	return out
 }
